@@ -57,8 +57,11 @@ theorem sendCoins_none {b : Bal} {x y : Addr} {d : Denom} {n : Nat} (h : sendCoi
 def mvStep (frm to : Addr) (b : Bal) (p : Denom × Nat) : Bal :=
   match sendCoins b frm to p.1 p.2 with | some b' => b' | none => b
 
-theorem bankExecute_eq (s : State) (frm to : Addr) :
-    (bankExecute s frm to).bal = (balancesOf s.bal frm).foldl (mvStep frm to) s.bal := rfl
+theorem bankExecute_eq (c : Cfg) (hc : c.bankAll = true) (s : State) (frm to : Addr) :
+    (bankExecute c s frm to).bal = (balancesOf s.bal frm).foldl (mvStep frm to) s.bal := by
+  unfold bankExecute bankAmounts
+  rw [hc]
+  rfl
 
 /-- invariant of the loop, relative to the ledger `b0` before it -/
 structure MvInv (frm to : Addr) (b0 b : Bal) : Prop where
@@ -137,10 +140,11 @@ theorem balancesOf_mem (b : Bal) (a : Addr) (d : Denom) (n : Nat) (h : get b (a,
   exact ⟨((a, d), n), ⟨⟨get_some_mem b _ _ h, h⟩, rfl⟩, rfl⟩
 
 /-- what `BankMigrate.Execute` does to the ledger, for every account and denomination -/
-theorem bankExecute_spec (s : State) (frm to : Addr) (hne : frm ≠ to) (a : Addr) (d : Denom) :
-    balOf (bankExecute s frm to).bal a d =
+theorem bankExecute_spec (c : Cfg) (hc : c.bankAll = true) (s : State) (frm to : Addr) (hne : frm ≠ to) (a : Addr)
+    (d : Denom) :
+    balOf (bankExecute c s frm to).bal a d =
       if a = to then balOf s.bal to d + balOf s.bal frm d else if a = frm then 0 else balOf s.bal a d := by
-  rw [bankExecute_eq]
+  rw [bankExecute_eq c hc]
   obtain ⟨inv, hall, _⟩ := mvFold_inv hne s.bal (balancesOf s.bal frm) (balancesOf_val s.bal frm) s.bal
     ⟨fun _ => Or.inl rfl, fun _ => rfl, fun _ _ _ _ => rfl⟩
   have hz : balOf ((balancesOf s.bal frm).foldl (mvStep frm to) s.bal) frm d = 0 := by
